@@ -586,3 +586,450 @@ Proof. unfold check_for_errors. now intros ->. Qed.
 Lemma write_traceback_recorded L d :
   tracebackMessages (write L d (Some TRACEBACK_SERIALIZER)) <> [].
 Proof. cbn. destruct (tracebackMessages L); cbn; discriminate. Qed.
+
+(* ------------------------------------------------------------------ constructor checks *)
+Lemma nodup_str_app l l' : nodup_str (l ++ l') = true -> forall x, In x l -> In x l' -> False.
+Proof.
+  induction l as [|y l IH]; cbn; [tauto|].
+  rewrite andb_true_iff, negb_true_iff, mem_str_false. intros [N ND] x [->|Hx] Hx'.
+  - apply N, in_or_app. auto.
+  - eapply IH; eauto.
+Qed.
+
+Lemma ctor_ok_parts fs : ctor_ok fs = true ->
+  nodup_str (field_keys fs) = true /\ forall r, In r RESERVED_FIELDS -> ~ In r (field_keys fs).
+Proof.
+  unfold ctor_ok. rewrite !andb_true_iff, negb_true_iff. intros [[[ND _] _] R]. split; auto.
+  intros r Hr Hin. apply negb_true_iff in R.
+  assert (existsb (fun r => mem_str r (field_keys fs)) RESERVED_FIELDS = true); [|congruence].
+  apply existsb_exists. exists r. split; auto. now apply mem_str_In.
+Qed.
+
+Lemma mk_serializer_some id fs allow sz : mk_serializer id fs allow = Some sz ->
+  sfields sz = fs /\ allow_additional sz = allow /\ sid sz = id /\ ctor_ok fs = true.
+Proof.
+  unfold mk_serializer. destruct (ctor_ok fs); [|discriminate]. intros H. inversion H. cbn. auto.
+Qed.
+
+Lemma not_reserved_key fs F : ctor_ok fs = true -> In F fs -> ~ reserved (K (fkey F)).
+Proof.
+  intros C HF R. apply ctor_ok_parts in C as [_ C].
+  assert (In (fkey F) (field_keys fs)) as Hin by (unfold field_keys; apply in_map; auto).
+  destruct R as [R|[R|R]]; apply K_inj in R; rewrite R in Hin; eapply C; eauto; cbn; auto.
+Qed.
+
+(* ------------------------------------------------------------------ library-built messages conform *)
+Ltac peel H := repeat (apply in_mset in H as [[-> ->]|H]).
+
+(* common shape: the message consists of the caller's fields (exactly the declared
+   user fields, with accepted values), reserved fields, and the automatic fields *)
+Lemma stamped_conforms sz user autos fields final :
+  sfields sz = user ++ autos ->
+  (forall F, In F user -> mget (K (fkey F)) final = mget (K (fkey F)) fields) ->
+  (forall F, In F user -> exists v, mget (K (fkey F)) fields = Some v /\ accepts F v) ->
+  (forall F, In F autos -> exists v, mget (K (fkey F)) final = Some v /\ accepts F v) ->
+  (forall k v, In (k, v) final ->
+     In (k, v) fields \/ reserved k \/ exists F, In F autos /\ k = K (fkey F)) ->
+  (forall k v, In (k, v) fields -> exists F, In F user /\ k = K (fkey F)) ->
+  validate sz final = Ok tt.
+Proof.
+  intros Hf Hsame Huser Hauto Hfinal Hfields. apply validate_iff. split.
+  - intros F HF. rewrite Hf in HF. apply in_app_or in HF as [HF|HF].
+    + rewrite Hsame by auto. auto.
+    + auto.
+  - right. intros k v Hin. destruct (Hfinal _ _ Hin) as [H|[H|[F [HF ->]]]].
+    + left. destruct (Hfields _ _ H) as [F [HF ->]]. exists F. split; auto. rewrite Hf. apply in_or_app. auto.
+    + auto.
+    + left. exists F. split; auto. rewrite Hf. apply in_or_app. auto.
+Qed.
+
+Lemma accepts_for_value_str k s : accepts (for_value k (JStr s)) (JStr s).
+Proof. apply for_value_accepts, py_eq_str. Qed.
+
+Lemma action_type_some id name sf uf a : action_type id name sf uf = Some a ->
+  let atf := for_value ACTION_TYPE (JStr name) in
+  (sfields (s_start a) = sf ++ [atf; for_value ACTION_STATUS STARTED]
+   /\ allow_additional (s_start a) = false
+   /\ ctor_ok (sf ++ [atf; for_value ACTION_STATUS STARTED]) = true)
+  /\ (sfields (s_success a) = uf ++ [atf; for_value ACTION_STATUS SUCCEEDED]
+   /\ allow_additional (s_success a) = false
+   /\ ctor_ok (uf ++ [atf; for_value ACTION_STATUS SUCCEEDED]) = true)
+  /\ (sfields (s_failure a) = [atf; for_value ACTION_STATUS FAILED; REASON; EXCEPTION]
+   /\ allow_additional (s_failure a) = true).
+Proof.
+  unfold action_type. intros H.
+  destruct (mk_serializer id _ false) as [s1|] eqn:E1; [|discriminate].
+  destruct (mk_serializer (S id) _ false) as [s2|] eqn:E2; [|discriminate].
+  destruct (mk_serializer (S (S id)) _ true) as [s3|] eqn:E3; [|discriminate].
+  inversion H. subst a. cbn.
+  apply mk_serializer_some in E1 as [A1 [A2 [_ A3]]].
+  apply mk_serializer_some in E2 as [B1 [B2 [_ B3]]].
+  apply mk_serializer_some in E3 as [C1 [C2 _]]. auto 10.
+Qed.
+
+(* user fields of an action's start/success serializer are none of the automatic names *)
+Lemma user_key_fresh user k1 v1 k2 v2 F :
+  ctor_ok (user ++ [for_value k1 v1; for_value k2 v2]) = true -> In F user ->
+  fkey F <> k1 /\ fkey F <> k2 /\ ~ reserved (K (fkey F)).
+Proof.
+  intros C HF. pose proof (not_reserved_key _ F C (in_or_app _ _ _ (or_introl HF))) as R.
+  apply ctor_ok_parts in C as [ND _]. unfold field_keys in ND. rewrite map_app in ND.
+  assert (In (fkey F) (map fkey user)) as Hin by (apply in_map; auto).
+  repeat split; auto; intros E; eapply (nodup_str_app _ _ ND); eauto; cbn; auto.
+Qed.
+
+Lemma action_message_conforms sz user name status uuid level ts fields :
+  sfields sz = user ++ [for_value ACTION_TYPE (JStr name); for_value ACTION_STATUS (JStr status)] ->
+  ctor_ok (user ++ [for_value ACTION_TYPE (JStr name); for_value ACTION_STATUS (JStr status)]) = true ->
+  (forall F, In F user -> exists v, mget (K (fkey F)) fields = Some v /\ accepts F v) ->
+  (forall k v, In (k, v) fields -> exists F, In F user /\ k = K (fkey F)) ->
+  validate sz (mset (K TASK_LEVEL) level
+                 (mupdate (mset (K TIMESTAMP) ts (mset (K ACTION_STATUS) (JStr status) fields))
+                          [(K TASK_UUID, uuid); (K ACTION_TYPE, JStr name)])) = Ok tt.
+Proof.
+  intros Hf C Hu Hfields.
+  eapply stamped_conforms with (fields := fields); eauto; cbn [mupdate fold_left fst snd].
+  - intros F HF. destruct (user_key_fresh _ _ _ _ _ F C HF) as [N1 [N2 NR]].
+    assert (forall s, reserved (K s) -> K (fkey F) <> K s) as NK by (intros s Rs E; rewrite E in NR; auto).
+    rewrite !mget_mset_neq; auto.
+    + intros E. apply K_inj in E. auto.
+    + apply NK. right. right. reflexivity.
+    + apply NK. right. left. reflexivity.
+    + intros E. apply K_inj in E. auto.
+    + apply NK. left. reflexivity.
+  - intros F [<-|[<-|[]]]; cbn [fkey for_value].
+    + exists (JStr name). split; [|apply accepts_for_value_str].
+      rewrite mget_mset_neq by discriminate. apply mget_mset_eq.
+    + exists (JStr status). split; [|apply accepts_for_value_str].
+      rewrite !mget_mset_neq by discriminate. apply mget_mset_eq.
+  - intros k v H. peel H; auto.
+    + right. left. left. reflexivity.
+    + right. right. eexists. split; [left; reflexivity | reflexivity].
+    + right. left. right. left. reflexivity.
+    + right. left. right. right. reflexivity.
+    + right. right. eexists. split; [right; left; reflexivity | reflexivity].
+Qed.
+
+(* start message of an ActionType, built by Action._start from accepted keyword arguments *)
+Theorem start_conforms id name sf uf a uuid level ts fields :
+  action_type id name sf uf = Some a ->
+  (forall F, In F sf -> exists v, mget (K (fkey F)) fields = Some v /\ accepts F v) ->
+  (forall k v, In (k, v) fields -> exists F, In F sf /\ k = K (fkey F)) ->
+  validate (s_start a) (start_message (JStr name) uuid level ts fields) = Ok tt.
+Proof.
+  intros H. apply action_type_some in H as [[A1 [_ A3]] _]. unfold start_message, STARTED in *.
+  intros. eapply action_message_conforms; eauto.
+Qed.
+
+(* success message, built by Action.finish(None) from the accumulated success fields *)
+Theorem success_conforms id name sf uf a uuid level ts success :
+  action_type id name sf uf = Some a ->
+  (forall F, In F uf -> exists v, mget (K (fkey F)) success = Some v /\ accepts F v) ->
+  (forall k v, In (k, v) success -> exists F, In F uf /\ k = K (fkey F)) ->
+  validate (s_success a) (success_message (JStr name) uuid level ts success) = Ok tt.
+Proof.
+  intros H. apply action_type_some in H as [_ [[A1 [_ A3]] _]]. unfold success_message, SUCCEEDED in *.
+  intros. eapply action_message_conforms; eauto.
+Qed.
+
+(* failure message, built by Action.finish(exception): whatever the extractor returned *)
+Theorem failure_conforms id name sf uf a uuid level ts exc_name reason extracted :
+  action_type id name sf uf = Some a ->
+  validate (s_failure a) (failure_message (JStr name) uuid level ts exc_name reason extracted) = Ok tt.
+Proof.
+  intros H. apply action_type_some in H as [_ [_ [A1 A2]]].
+  apply validate_iff. split; [|auto]. rewrite A1. unfold failure_message. cbn [mupdate fold_left fst snd].
+  intros F [<-|[<-|[<-|[<-|[]]]]]; cbn [fkey for_value REASON EXCEPTION for_types].
+  - exists (JStr name). split; [|apply accepts_for_value_str].
+    rewrite mget_mset_neq by discriminate. apply mget_mset_eq.
+  - exists FAILED. split; [|apply accepts_for_value_str].
+    rewrite !mget_mset_neq by discriminate. apply mget_mset_eq.
+  - exists (JStr reason). split.
+    + rewrite !mget_mset_neq by discriminate. apply mget_mset_eq.
+    + apply for_types_accepts. split; [exists TStr; cbn; auto | reflexivity].
+  - exists (JStr exc_name). split.
+    + rewrite !mget_mset_neq by discriminate. apply mget_mset_eq.
+    + apply for_types_accepts. split; [exists TStr; cbn; auto | reflexivity].
+Qed.
+
+(* a MessageType message, built by MessageType.log from accepted keyword arguments *)
+Theorem message_conforms id name fs sz uuid level ts fields :
+  message_type id name fs = Some sz ->
+  (forall F, In F fs -> exists v, mget (K (fkey F)) fields = Some v /\ accepts F v) ->
+  (forall k v, In (k, v) fields -> exists F, In F fs /\ k = K (fkey F)) ->
+  validate sz (log_message (JStr name) uuid level ts fields) = Ok tt.
+Proof.
+  unfold message_type. intros H Hu Hfields. apply mk_serializer_some in H as [A1 [_ [_ C]]].
+  eapply stamped_conforms with (fields := fields); eauto; unfold log_message.
+  - intros F HF. pose proof (not_reserved_key _ F C (in_or_app _ _ _ (or_introl HF))) as NR.
+    assert (forall s, reserved (K s) -> K (fkey F) <> K s) as NK by (intros s Rs E; rewrite E in NR; auto).
+    apply ctor_ok_parts in C as [ND _]. unfold field_keys in ND. rewrite map_app in ND.
+    assert (fkey F <> MESSAGE_TYPE) as NM.
+    { intros E. eapply (nodup_str_app _ _ ND (fkey F)); [apply in_map; auto | rewrite E; cbn; auto]. }
+    rewrite !mget_mset_neq; auto.
+    + apply NK. right. right. reflexivity.
+    + apply NK. right. left. reflexivity.
+    + apply NK. left. reflexivity.
+    + intros E. apply K_inj in E. auto.
+  - intros F [<-|[]]. cbn [fkey for_value]. exists (JStr name). split; [apply mget_mset_eq | apply accepts_for_value_str].
+  - intros k v H. peel H; auto.
+    + right. right. eexists. split; [left; reflexivity | reflexivity].
+    + right. left. left. reflexivity.
+    + right. left. right. left. reflexivity.
+    + right. left. right. right. reflexivity.
+Qed.
+
+(* a traceback message, built by write_traceback: any exception object, any traceback
+   text, the exception's class, plus whatever the extractor returned under other names *)
+Theorem traceback_conforms uuid level ts exn tb c mro extracted :
+  (forall v, ~ In (K REASON_FIELD, v) extracted) ->
+  (forall v, ~ In (K TRACEBACK_FIELD, v) extracted) ->
+  (forall v, ~ In (K EXCEPTION_FIELD, v) extracted) ->
+  (forall v, ~ In (K MESSAGE_TYPE, v) extracted) ->
+  validate TRACEBACK_SERIALIZER
+           (traceback_message uuid level ts exn tb (JExnType (c :: mro)) extracted) = Ok tt.
+Proof.
+  intros N1 N2 N3 N4. unfold traceback_message.
+  set (c0 := mdict _).
+  assert (c0 = [(K REASON_FIELD, exn); (K TRACEBACK_FIELD, tb); (K EXCEPTION_FIELD, JExnType (c :: mro));
+                (K MESSAGE_TYPE, JStr TRACEBACK_TYPE)]) as Ec by reflexivity.
+  rewrite (mget_mupdate_notin _ _ N4), Ec. cbn [mget mkey_eqb K MESSAGE_TYPE REASON_FIELD TRACEBACK_FIELD EXCEPTION_FIELD].
+  cbn -[mupdate mdel log_message TRACEBACK_SERIALIZER]. rewrite <- Ec.
+  apply validate_iff. split; [|left; reflexivity].
+  unfold log_message. cbn [sfields TRACEBACK_SERIALIZER].
+  intros F [<-|[<-|[<-|[<-|[]]]]]; cbn [fkey for_value].
+  - exists exn. split.
+    + rewrite !mget_mset_neq by discriminate. rewrite mget_mdel_neq by discriminate.
+      rewrite (mget_mupdate_notin _ _ N1), Ec. reflexivity.
+    + split; [eexists; reflexivity | reflexivity].
+  - exists tb. split.
+    + rewrite !mget_mset_neq by discriminate. rewrite mget_mdel_neq by discriminate.
+      rewrite (mget_mupdate_notin _ _ N2), Ec. reflexivity.
+    + split; [eexists; reflexivity | reflexivity].
+  - exists (JExnType (c :: mro)). split.
+    + rewrite !mget_mset_neq by discriminate. rewrite mget_mdel_neq by discriminate.
+      rewrite (mget_mupdate_notin _ _ N3), Ec. reflexivity.
+    + split; [eexists; reflexivity | reflexivity].
+  - exists (JStr TRACEBACK_TYPE). split; [apply mget_mset_eq | apply accepts_for_value_str].
+Qed.
+
+(* "Messages produced by correct use of a declared type always validate" *)
+Theorem C14_library_conforms :
+  (forall id name sf uf a uuid level ts fields,
+     action_type id name sf uf = Some a ->
+     (forall F, In F sf -> exists v, mget (K (fkey F)) fields = Some v /\ accepts F v) ->
+     (forall k v, In (k, v) fields -> exists F, In F sf /\ k = K (fkey F)) ->
+     validate (s_start a) (start_message (JStr name) uuid level ts fields) = Ok tt)
+  /\ (forall id name sf uf a uuid level ts success,
+     action_type id name sf uf = Some a ->
+     (forall F, In F uf -> exists v, mget (K (fkey F)) success = Some v /\ accepts F v) ->
+     (forall k v, In (k, v) success -> exists F, In F uf /\ k = K (fkey F)) ->
+     validate (s_success a) (success_message (JStr name) uuid level ts success) = Ok tt)
+  /\ (forall id name sf uf a uuid level ts exc_name reason extracted,
+     action_type id name sf uf = Some a ->
+     validate (s_failure a) (failure_message (JStr name) uuid level ts exc_name reason extracted) = Ok tt)
+  /\ (forall id name fs sz uuid level ts fields,
+     message_type id name fs = Some sz ->
+     (forall F, In F fs -> exists v, mget (K (fkey F)) fields = Some v /\ accepts F v) ->
+     (forall k v, In (k, v) fields -> exists F, In F fs /\ k = K (fkey F)) ->
+     validate sz (log_message (JStr name) uuid level ts fields) = Ok tt)
+  /\ (forall uuid level ts exn tb c mro extracted,
+     (forall v, ~ In (K REASON_FIELD, v) extracted) ->
+     (forall v, ~ In (K TRACEBACK_FIELD, v) extracted) ->
+     (forall v, ~ In (K EXCEPTION_FIELD, v) extracted) ->
+     (forall v, ~ In (K MESSAGE_TYPE, v) extracted) ->
+     validate TRACEBACK_SERIALIZER
+              (traceback_message uuid level ts exn tb (JExnType (c :: mro)) extracted) = Ok tt).
+Proof.
+  repeat split.
+  - apply start_conforms.
+  - apply success_conforms.
+  - apply failure_conforms.
+  - apply message_conforms.
+  - apply traceback_conforms.
+Qed.
+
+(* ------------------------------------------------------------------ the unittest harness *)
+Definition not_restore (c : cleanup) : Prop := forall p, c <> CRestore p.
+
+Lemma run_cleanup_default sk c w :
+  not_restore c -> default_logger (fst (run_cleanup sk c w)) = default_logger w.
+Proof.
+  intros N. destruct c as [l|l a|p]; cbn.
+  - destruct (check_for_errors (logger_of w l)) as [L' r]. reflexivity.
+  - destruct sk; reflexivity.
+  - exfalso. eapply N. reflexivity.
+Qed.
+
+Lemma do_cleanups_default sk cs : Forall not_restore cs ->
+  forall w r, default_logger (fst (do_cleanups sk cs w r)) = default_logger w.
+Proof.
+  induction 1 as [|c cs Hc Hcs IH]; intros w r; cbn; auto.
+  pose proof (run_cleanup_default sk c w Hc) as D.
+  destruct (run_cleanup sk c w) as [w' e]. cbn in D. rewrite IH. exact D.
+Qed.
+
+(* "capture_logging always restores the previous default logger whatever the test's
+   outcome": for every assertion callback, every test body (it may log, flush, replace
+   the default logger itself) and every outcome it ends in *)
+Theorem C14_restore a body w :
+  default_logger (fst (run_test (capture_logging a (lift body)) w)) = default_logger w.
+Proof.
+  unfold run_test, capture_logging, validate_logging, capture_wrapper, lift.
+  cbn [fst snd new_memory_logger swap_logger default_logger].
+  destruct (body _ _) as [w' o]. cbn [fst snd].
+  destruct a as [g|]; cbn [do_cleanups run_cleanup swap_logger fst snd].
+  - rewrite do_cleanups_default; [reflexivity|].
+    repeat constructor; intros p; discriminate.
+  - rewrite do_cleanups_default; [reflexivity|].
+    repeat constructor; intros p; discriminate.
+Qed.
+
+(* it holds in particular for each of the four outcomes *)
+Corollary C14_restore_each_outcome a steps w :
+  forall o, In o [OPass; OFail; OError ERuntime; OSkip] ->
+  default_logger (fst (run_test (capture_logging a (lift (body_of steps o))) w)) = default_logger w.
+Proof. intros o _. apply C14_restore. Qed.
+
+(* the test body really runs with the MemoryLogger as default logger *)
+Theorem capture_swaps a body w :
+  exists st o, capture_logging a (lift body) (w, []) = (st, o) /\
+  forall l w', new_memory_logger w = (w', l) ->
+    body l (fst (swap_logger w' l)) = (fst st, o).
+Proof.
+  unfold capture_logging, validate_logging, capture_wrapper, lift.
+  cbn [fst snd new_memory_logger swap_logger].
+  destruct (body _ _) as [w1 o] eqn:B. eexists. exists o. split; [reflexivity|].
+  intros l w' E. inversion E. subst. cbn [fst]. exact B.
+Qed.
+
+(* the assertion callback runs exactly once, unless the body raised SkipTest *)
+Theorem C14_assertion_unless_skipped g body w :
+  let '(w0, l) := new_memory_logger w in
+  let '(w1, o) := body l (fst (swap_logger w0 l)) in
+  assertion_calls (fst (run_test (capture_logging (Some g) (lift body)) w))
+  = assertion_calls w1 + (if is_skip o then 0 else 1).
+Proof.
+  unfold run_test, capture_logging, validate_logging, capture_wrapper, lift.
+  cbn [fst snd new_memory_logger swap_logger].
+  destruct (body _ _) as [w1 o]. cbn [fst snd do_cleanups run_cleanup swap_logger].
+  destruct (is_skip o); cbn [fst snd].
+  - destruct (check_for_errors _) as [L' r]. cbn. lia.
+  - destruct (check_for_errors _) as [L' r]. cbn. lia.
+Qed.
+
+(* whatever check_for_errors finds in the test's logger after the body is reported by
+   the test run (UnflushedTracebacks, ValidationError, TypeError: as errors) *)
+Theorem C14_errors_surface a body w e :
+  let '(w0, l) := new_memory_logger w in
+  let '(w1, o) := body l (fst (swap_logger w0 l)) in
+  snd (check_for_errors (logger_of w1 l)) = Raise e -> e <> EAssertion ->
+  In e (r_errors (snd (run_test (capture_logging a (lift body)) w))).
+Proof.
+  unfold run_test, capture_logging, validate_logging, capture_wrapper, lift.
+  cbn [fst snd new_memory_logger swap_logger].
+  destruct (body _ _) as [w1 o]. intros Hc Ne.
+  assert (forall r, In e (r_errors (record_exc e r))) as Rec.
+  { intros r. destruct e; cbn; try (apply in_or_app; right; cbn; auto). congruence. }
+  destruct a as [g|]; cbn [fst snd do_cleanups run_cleanup swap_logger].
+  - destruct (is_skip o); cbn [fst snd];
+      unfold logger_of in *; cbn [mem] in *;
+      destruct (check_for_errors _) as [L' [[]|e']]; cbn in *; try discriminate;
+      inversion Hc; subst; apply Rec.
+  - unfold logger_of in *; cbn [mem] in *.
+    destruct (check_for_errors _) as [L' [[]|e']]; cbn in *; try discriminate.
+    inversion Hc; subst; apply Rec.
+Qed.
+
+(* ------------------------------------------------------------------ non-vacuity *)
+Definition ex_fields : list Field :=
+  [for_types "key" [TInt] (extra_of XPositive); field_of (FCustom "path" SSucc XNone)].
+
+Definition ex_type : option action_serializers :=
+  action_type 1 "app:lookup" ex_fields [for_types "result" [TStr; TNone] no_extra].
+
+Definition ex_start : msg :=
+  start_message (JStr "app:lookup") (JStr "U") (JList [JInt 1]) (JFloat 6)
+                [(K "key", JInt 5); (K "path", JInt 0)].
+
+(* a declared type exists, its start message validates, and each single deviation fails *)
+Example ex_conforming :
+  match ex_type with
+  | Some a =>
+      validate (s_start a) ex_start = Ok tt
+      /\ validate (s_start a) (mdel (K "key") ex_start) = Raise EValidation
+      /\ validate (s_start a) (mset (K "exception") (JStr "x") ex_start) = Raise EValidation
+      /\ validate (s_start a) (mset (K "key") (JInt 0) ex_start) = Raise EValidation
+      /\ validate (s_start a) (mset (K "key") (JStr "5") ex_start) = Raise EValidation
+      /\ validate (s_start a) (mset (K "task_uuid") (JInt 1) ex_start) = Ok tt
+      /\ validate (s_failure a) (mset (K "errno") (JInt 2)
+           (failure_message (JStr "app:lookup") (JStr "U") (JList [JInt 2]) (JFloat 6)
+              "builtins.OSError" "boom" [(K "errno", JInt 2); (K "reason", JInt 7)])) = Ok tt
+  | None => False
+  end.
+Proof. vm_compute. repeat split. Qed.
+
+(* the hypotheses of start_conforms hold for that use *)
+Example ex_hypotheses :
+  (forall F, In F ex_fields -> exists v, mget (K (fkey F)) [(K "key", JInt 5); (K "path", JInt 0)] = Some v /\ accepts F v)
+  /\ (forall k v, In (k, v) [(K "key", JInt 5); (K "path", JInt 0)] -> exists F, In F ex_fields /\ k = K (fkey F)).
+Proof.
+  split.
+  - intros F [<-|[<-|[]]].
+    + exists (JInt 5). split; [reflexivity|]. apply for_types_accepts. split; [exists TInt; cbn; auto | reflexivity].
+    + exists (JInt 0). split; [reflexivity|]. split; [eexists; reflexivity | reflexivity].
+  - intros k v [E|[E|[]]]; inversion E; subst; eexists; (split; [|reflexivity]); cbn; auto.
+Qed.
+
+(* illegal definitions are refused by the constructor *)
+Example ex_ctor_refuses :
+  message_type 1 "m" [for_types "task_uuid" [TInt] no_extra] = None
+  /\ message_type 1 "m" [for_types "_x" [TInt] no_extra] = None
+  /\ message_type 1 "m" [for_types "x" [TInt] no_extra; for_types "x" [TStr] no_extra] = None
+  /\ message_type 1 "m" [for_types "action_type" [TInt] no_extra] = None
+  /\ action_type 1 "a" [for_types "action_status" [TInt] no_extra] [] = None.
+Proof. vm_compute. repeat split. Qed.
+
+(* MemoryLogger: a valid and a not-JSON-encodable message; the class comes from the first failure *)
+Example ex_memory_logger :
+  match ex_type with
+  | Some a =>
+      let L := write new_logger ex_start (Some (s_start a)) in
+      snd (logger_validate L) = Ok tt
+      /\ snd (logger_validate (write L [(K "message_type", JStr "plain"); (K "blob", JObj false 1)] None)) = Raise EType
+      /\ snd (logger_validate (write L [(KBytes false "k", JInt 1)] None)) = Raise EUnicodeDecode
+      /\ snd (logger_validate (write L (mset (K "key") (JInt 18446744073709551616) ex_start) (Some (s_start a)))) = Raise EType
+      /\ snd (logger_validate (write (write L (mdel (K "path") ex_start) (Some (s_start a)))
+                                     [(KOther 1, JInt 1)] None)) = Raise EValidation
+  | None => False
+  end.
+Proof. vm_compute. repeat split. Qed.
+
+(* unflushed tracebacks win over a validation error; flushing lets validation speak *)
+Example ex_tracebacks_first :
+  let RT := ["builtins.RuntimeError"; "builtins.Exception"] in
+  let tb := traceback_message (JStr "U") (JList [JInt 1]) (JFloat 6) (JExn RT "boom") (JStr "Traceback...")
+                              (JExnType RT) [(K "errno", JInt 2)] in
+  let L := write (write new_logger tb (Some TRACEBACK_SERIALIZER)) [(KOther 1, JInt 1)] None in
+  validate TRACEBACK_SERIALIZER tb = Ok tt
+  /\ tracebackMessages L = [0]
+  /\ snd (check_for_errors L) = Raise EUnflushed
+  /\ snd (flush_tracebacks L "builtins.ValueError") = Ok []
+  /\ snd (flush_tracebacks L "builtins.Exception") = Ok [0]
+  /\ snd (check_for_errors (fst (flush_tracebacks L "builtins.Exception"))) = Raise EType.
+Proof. vm_compute. repeat split. Qed.
+
+(* the harness: a failing body that also replaced the default logger; it is restored,
+   the assertion ran, the invalid message surfaces as an error next to the failure *)
+Example ex_harness :
+  match message_type 1 "app:m" [for_types "x" [TInt] no_extra] with
+  | Some sz =>
+      let bad := log_message (JStr "app:m") (JStr "U") (JList [JInt 1]) (JFloat 6) [(K "x", JStr "one")] in
+      let w0 := mkWorld 7 7 [] 0 in
+      let '(w, r) := run_test (capture_logging (Some (fun _ => None))
+                                 (lift (body_of [SWriteDefault bad (Some sz); SClobber 99] OFail))) w0 in
+      default_logger w = 7 /\ assertion_calls w = 1
+      /\ r_failures r = [EAssertion] /\ r_errors r = [EValidation] /\ r_success r = false
+  | None => False
+  end.
+Proof. vm_compute. repeat split. Qed.
